@@ -354,6 +354,15 @@ theorem loopW_inv (n : Nat) (tab : Table) (named : List Cmd) (snt : Cmd)
       rw [st_eta _ rest hef her]
       exact he
 
+/-- a silent console at boot (`argc != 0`): `bufp = buf`, the zero-initialised buffer is clean -/
+theorem inv_boot_silent (n : Nat) (s : St) (h : Inv n s) (f0 : s.fpt = 0) :
+    Inv n { ({ s with bufp := 0 } : St) with fpt := 1, ring := s.ring } :=
+  { h with bufp := Nat.zero_le _, clean := (fun _ j _ => h.boot f0 j), fpt := (by show 1 ≤ 2; omega),
+           cmd := (fun e => absurd (show (1 : Nat) = 2 from e) (by decide)),
+           argv0 := (fun e => absurd (show (1 : Nat) = 2 from e) (by decide)),
+           help := (fun e => absurd (show (1 : Nat) = 2 from e) (by decide)),
+           boot := (fun e => absurd (show (1 : Nat) = 0 from e) (by decide)) }
+
 theorem consoleRun_inv (n : Nat) (tab : Table) (named : List Cmd) (snt : Cmd) (s : St)
     (ht : TableOk tab named snt) (hn : n = named.length) (h : Inv n s) : Inv n (consoleRun tab s).1 := by
   unfold consoleRun
